@@ -84,8 +84,9 @@ Definition code_sem : sem :=
 
 (** * The fragment F1
 
-    simple and WithinTrial factors only (no complex window), every factor in
-    [act_design], sustain 1, zero preambles, exclusions from a crossing only through Exclude
+    simple and WithinTrial factors only (no complex window); the factors outside
+    [act_design] (implied) are derived from factors of [act_design] by total
+    tables; sustain 1, zero preambles, exclusions from a crossing only through Exclude
     constraints and inconsistent derived levels, constraint kinds Consistency / Cross / Derivation (simple) /
     AtMostKInARow / AtLeastKInARow / ExactlyKInARow / ExactlyK / Exclude / Pin /
     Sequential (and the kinds that compile to nothing), unambiguous derived-level tables that the [Derivation]
@@ -107,13 +108,20 @@ Fixpoint entry_ok (deps : list nat) (entry : list (list (option nat))) : bool :=
   | _, _ => false
   end.
 
+(** membership in [act_design] (the factors that have SAT variables) *)
+Definition isact (f : nat) : bool := existsb (Nat.eqb f) (fl_act fb).
+
+(** [act_design] lists its factors in design order, each once *)
+Definition act_sorted : bool :=
+  list_nat_eqb (fl_act fb) (filter isact (seq 0 (length (fl_design fb)))).
+
 (** every table entry has one in-range cell per depended-on factor, and the
-    depended-on factors are factors of the design *)
+    depended-on factors are factors of [act_design] *)
 Definition tables_ok (f : nat) (fd : ffactor) : bool :=
   match ff_window fd with
   | None => true
   | Some w =>
-    forallb (fun d => d <? length (fl_design fb)) (win_deps w) &&
+    forallb isact (win_deps w) &&
     forallb (fun lv => forallb (entry_ok (win_deps w)) (lv_accepts lv)) (ff_levels fd)
   end.
 
@@ -126,6 +134,20 @@ Definition tables_unambiguous (fd : ffactor) : bool :=
                length (filter (fun l => level_accepts fd l args) (seq 0 (length (ff_levels fd)))) <=? 1)
             (product (map (fun d => seq 0 (nlevels fb d)) (win_deps w)))
   end.
+
+(** some level accepts every argument tuple (needed for the implied factors,
+    whose level is computed from the others after solving) *)
+Definition tables_total (fd : ffactor) : bool :=
+  match ff_window fd with
+  | None => true
+  | Some w =>
+    forallb (fun args => existsb (fun l => level_accepts fd l args) (seq 0 (length (ff_levels fd))))
+            (product (map (fun d => seq 0 (nlevels fb d)) (win_deps w)))
+  end.
+
+(** an implied factor (not in [act_design]) is a derived factor with a total table *)
+Definition implied_ok (f : nat) (fd : ffactor) : bool :=
+  isact f || (match ff_window fd with Some _ => true | None => false end && tables_total fd).
 
 Definition didx_eqb (a b : didx) : bool :=
   match a, b with
@@ -161,12 +183,13 @@ Definition is_derivation_of (f l : nat) (c : fconstraint) : bool :=
   end.
 
 Definition derivations_match : bool :=
-  (* every derived level has its Derivation ... *)
+  (* every level of a derived factor of act_design has its Derivation ... *)
   forallb (fun p =>
              let '(f, fd) := p in
              match ff_window fd with
              | None => true
-             | Some _ => forallb (fun l => existsb (is_derivation_of f l) (fl_constraints fb))
+             | Some _ => negb (isact f) ||
+                         forallb (fun l => existsb (is_derivation_of f l) (fl_constraints fb))
                                  (seq 0 (length (ff_levels fd)))
              end) (combine (seq 0 (length (fl_design fb))) (fl_design fb)) &&
   (* ... and every Derivation is one of those *)
@@ -182,20 +205,20 @@ Definition constraint_f1 (c : fconstraint) : bool :=
   match c with
   | FCross | FConsistency | FReify _ | FMinimumTrials _ | FContinuous => true
   | FDerivation _ _ _ => true                      (* shape checked by [derivations_match] *)
-  | FAtMost _ f l wb => (f <? length (fl_design fb)) && (l <? nlevels fb f) && geom_ok wb
+  | FAtMost _ f l wb => isact f && (l <? nlevels fb f) && geom_ok wb
   | FExactlyK _ f l wb =>
-    (f <? length (fl_design fb)) && (l <? nlevels fb f) && geom_ok wb &&
+    isact f && (l <? nlevels fb f) && geom_ok wb &&
     forallb (fun r => fst r <? snd r) (windows_of wb)     (* no empty window: EQ on no variables raises *)
-  | FExclude f l => (f <? length (fl_design fb)) && (l <? nlevels fb f)
-  | FPin _ f l wb => (f <? length (fl_design fb)) && (l <? nlevels fb f) && geom_ok wb && (geometry_sustain fb wb f =? 1)
+  | FExclude f l => isact f && (l <? nlevels fb f)
+  | FPin _ f l wb => isact f && (l <? nlevels fb f) && geom_ok wb && (geometry_sustain fb wb f =? 1)
   | FAtLeast k f l wb | FExactlyKInARow k f l wb =>
-    (0 <? k) && (f <? length (fl_design fb)) && (l <? nlevels fb f) && geom_ok wb
-  | FSequential f => f <? length (fl_design fb)
+    (0 <? k) && isact f && (l <? nlevels fb f) && geom_ok wb
+  | FSequential f => isact f
   | _ => false
   end.
 
 Definition crossing_f1 (i : nat) (c : list nat) : bool :=
-  forallb (fun f => f <? length (fl_design fb)) c &&
+  forallb isact c &&
   (0 <? nth i (fl_sizes fb) 0 * crossing_weight fb c) &&
   (nth i (fl_preambles fb) 0 =? 0) &&
   match c with [] => false | _ => true end.
@@ -227,7 +250,7 @@ Definition in_f1 : bool :=
   forallb factor_f1 (fl_design fb) &&
   forallb (fun p => tables_ok (fst p) (snd p) && tables_unambiguous (snd p))
           (combine (seq 0 (length (fl_design fb))) (fl_design fb)) &&
-  list_nat_eqb (fl_act fb) (seq 0 (length (fl_design fb))) &&
+  (act_sorted && forallb (fun p => implied_ok (fst p) (snd p)) (combine (seq 0 (length (fl_design fb))) (fl_design fb))) &&
   forallb (fun n => n =? 1) (fl_sustains fb) &&
   (length (fl_sustains fb) =? length (fl_crossings fb)) &&
   (fl_alignment_preamble fb =? 0) &&
@@ -247,7 +270,7 @@ Definition f1_why : list bool :=
   [ forallb factor_f1 (fl_design fb);
     forallb (fun p => tables_ok (fst p) (snd p)) (combine (seq 0 (length (fl_design fb))) (fl_design fb));
     forallb (fun p => tables_unambiguous (snd p)) (combine (seq 0 (length (fl_design fb))) (fl_design fb));
-    list_nat_eqb (fl_act fb) (seq 0 (length (fl_design fb)));
+    act_sorted && forallb (fun p => implied_ok (fst p) (snd p)) (combine (seq 0 (length (fl_design fb))) (fl_design fb));
     forallb (fun n => n =? 1) (fl_sustains fb);
     (fl_alignment_preamble fb =? 0) && forallb (fun n => n =? 0) (fl_preambles fb);
     crossings_f1 0 (fl_crossings fb);
